@@ -165,6 +165,7 @@ impl FileSystem for MemoryFS {
         if !found_directory {
             return Err(VfsErrorKind::FileNotFound.into());
         }
+        ensure_dir(&handle.files[path])?;
         Ok(Box::new(entries.into_iter()))
     }
 
@@ -210,7 +211,11 @@ impl FileSystem for MemoryFS {
     fn create_file(&self, path: &str) -> VfsResult<Box<dyn SeekAndWrite + Send>> {
         self.ensure_has_parent(path)?;
         let content = Arc::new(Vec::<u8>::new());
-        self.handle.write().unwrap().files.insert(
+        let mut handle = self.handle.write().unwrap();
+        if let Some(existing) = handle.files.get(path) {
+            ensure_file(existing)?;
+        }
+        handle.files.insert(
             path.to_string(),
             MemoryFile {
                 file_type: VfsFileType::File,
@@ -220,6 +225,7 @@ impl FileSystem for MemoryFS {
                 accessed: Some(SystemTime::now()),
             },
         );
+        drop(handle);
         let writer = WritableFile {
             content: Cursor::new(vec![]),
             destination: path.to_string(),
@@ -231,6 +237,7 @@ impl FileSystem for MemoryFS {
     fn append_file(&self, path: &str) -> VfsResult<Box<dyn SeekAndWrite + Send>> {
         let handle = self.handle.write().unwrap();
         let file = handle.files.get(path).ok_or(VfsErrorKind::FileNotFound)?;
+        ensure_file(file)?;
         let mut content = Cursor::new(file.content.as_ref().clone());
         content.seek(SeekFrom::End(0))?;
         let writer = WritableFile {
@@ -290,10 +297,9 @@ impl FileSystem for MemoryFS {
 
     fn remove_file(&self, path: &str) -> VfsResult<()> {
         let mut handle = self.handle.write().unwrap();
-        handle
-            .files
-            .remove(path)
-            .ok_or(VfsErrorKind::FileNotFound)?;
+        let file = handle.files.get(path).ok_or(VfsErrorKind::FileNotFound)?;
+        ensure_file(file)?;
+        handle.files.remove(path);
         Ok(())
     }
 
@@ -345,6 +351,13 @@ struct MemoryFile {
 fn ensure_file(file: &MemoryFile) -> VfsResult<()> {
     if file.file_type != VfsFileType::File {
         return Err(VfsErrorKind::Other("Not a file".into()).into());
+    }
+    Ok(())
+}
+
+fn ensure_dir(file: &MemoryFile) -> VfsResult<()> {
+    if file.file_type != VfsFileType::Directory {
+        return Err(VfsErrorKind::Other("Not a directory".into()).into());
     }
     Ok(())
 }
